@@ -936,6 +936,30 @@ func (e *Engine) dropDetached(op *Op) error {
 	retire(d)
 	e.removeRoot(d)
 	e.Stats.label("detached_disposed")
+	if op.D == 1 && d.Count() <= 2 {
+		// a value the client knows to be a single slab of plain scalars can be removed by identifier
+		// without loading it first
+		blind := true
+		vals := d.Elems
+		if d.IsMap {
+			vals = nil
+			for _, ck := range d.SortedKeys() {
+				vals = append(vals, d.Ents[ck].K, d.Ents[ck].V)
+			}
+		}
+		for _, v := range vals {
+			if !e.plainScalar(v, 24) {
+				blind = false
+			}
+		}
+		if blind {
+			e.Stats.label("removed_without_loading")
+			if err := e.St.Remove(d.Root); err != nil {
+				return e.viol("removing slab %s failed: %v", d.Root, err)
+			}
+			return nil
+		}
+	}
 	return e.dispose(atree.SlabIDStorable(d.Root))
 }
 
